@@ -121,6 +121,43 @@ def c15(tier, seed, replay):
                 samples=[{"history": [(o["op"], o["a"], o["b"]) for o in runs[k]["ops"]], "mode": runs[k]["mode"]}
                          for k in (0, len(runs) // 3, len(runs) // 2)])
         rep.cov["random_instances_run_2x_interpreted_2x_compiled"] = len(recs)
+        # ---- the edges of the configuration space: the same capacity scenarios in both modes must end the same way
+        import subprocess
+        from concurrent.futures import ThreadPoolExecutor
+        from common import HARNESS, PY
+        edge = [(n, hgt, dh) for hgt in (2, 3, 5, 127, 253, 254) for n in (hgt - 1, hgt, hgt + 1) for dh in (0, 3)
+                if 1 <= n <= 300]
+        if tier == "quick":
+            edge = edge[::2] + [(254, 254, 0), (300, 254, 0), (130, 253, 3)]
+
+        def cap(args):
+            n, hgt, dh, jit = args
+            out = tmp / f"edge-{n}-{hgt}-{dh}-{int(jit)}.json"
+            try:
+                p = subprocess.run([PY, str(HARNESS / "cap_worker.py"), str(n), str(hgt), str(dh), str(out)],
+                                   env=envJ if jit else envI, capture_output=True, text=True, timeout=300)
+                rc = p.returncode
+            except subprocess.TimeoutExpired:
+                rc = -1
+            o = json.load(open(out)) if out.exists() else {"outcome": "deadline"}
+            return (n, hgt, dh, jit), {"outcome": o.get("outcome"), "count": o.get("count", 0), "depth": o.get("depth", -1),
+                                       "first_ok": o.get("first_ok", True), "exit": rc}
+
+        with ThreadPoolExecutor(max_workers=NCPU) as ex:
+            got = dict(ex.map(cap, [(n, hgt, dh, jit) for (n, hgt, dh) in edge for jit in (False, True)]))
+        nedge = 0
+        for (n, hgt, dh) in edge:
+            a, b = got[(n, hgt, dh, False)], got[(n, hgt, dh, True)]
+            nedge += 1
+            same = (a["outcome"] in ("raised", "refused")) == (b["outcome"] in ("raised", "refused")) and \
+                   (a["outcome"] in ("raised", "refused") or (a["count"], a["depth"], a["first_ok"]) == (b["count"], b["depth"], b["first_ok"])) \
+                   and a["exit"] == b["exit"] == 0
+            if not same:
+                rep.fail({"n": n, "height": hgt, "dh": dh, "clause": "C15:capacity-edge-differs-between-modes",
+                          "interpreted": a, "compiled": b},
+                         f"C15:capacity-edge-differs-between-modes: {n} free variables, stack_max_height={hgt}, value "
+                         f"heuristic {dh}: interpreted {a} vs compiled {b}")
+        rep.cov["capacity_edge_scenarios_compared_across_modes"] = nedge
         rep.cov["compile_seconds"] = round(cold, 1)
     rep.add(rule="(1) Histories: every behaviour of spec/ProcessHistory.tla up to max_ops operations (new problem object, "
                  "new solver on a possibly re-used problem, one step, drain, abandon half-way, registration of a custom "
